@@ -108,3 +108,13 @@ MUTS += [
  {"name": "M30-jrcxz-tests-ecx", "breaks": "C03", "file": "src/instructions/jrcxz.rs", "checks": ["C03"],
   "old": "if self.reg_read_64(SupportedRegister::RCX)? == 0 {", "new": "if self.reg_read_64(SupportedRegister::RCX)? & 0xFFFF_FFFF == 0 {"},
 ]
+
+MUTS += [
+ # ---- fetch window (C06 via S9) ---------------------------------------------------------------
+ {"name": "M31-fetch-window-14-bytes", "breaks": "C06", "file": "src/state/memory.rs", "checks": ["C06", "C01"],
+  "old": "        let slice = &area.data[offset..min(offset + 15, area.data.len())];",
+  "new": "        let slice = &area.data[offset..min(offset + 14, area.data.len())];"},
+ {"name": "M32-fetch-needs-15-bytes-left", "breaks": "C06 C11", "file": "src/state/memory.rs", "checks": ["C06", "C11"],
+  "old": "        let slice = &area.data[offset..min(offset + 15, area.data.len())];",
+  "new": "        if offset + 15 > area.data.len() && area.data.len() >= 0x1000 {\n            return Err(self.collect_mem_error_hints(address, 15, \"Read executable\".to_string()));\n        }\n        let slice = &area.data[offset..min(offset + 15, area.data.len())];"},
+]
